@@ -19,7 +19,7 @@ def scenarios(ctx, n, malformed_share=0.3):
             c2 = dict(case, files=files)
             kind = case["kind"]
             if kind == "cab":
-                params = [("DECOMPBUF", rng.choice([16, 4096])), ("SALVAGE", rng.choice([0, 0, 1]))]
+                params = [("DECOMPBUF", rng.choice([5, 16, 17, 4096, 4097])), ("SALVAGE", rng.choice([0, 0, 1]))]
                 ops, _ = S.cab_ops(c2, params, close=False)
                 nparts = len(case["meta"]["order"]) if case["meta"].get("open") != "search" else 1
                 ops += [f"close i0 h{j}" for j in range(nparts)] + ["destroy i0"]
@@ -30,6 +30,8 @@ def scenarios(ctx, n, malformed_share=0.3):
                     name = case["members"][-1]["name"].hex() or "="
                     ops += [f"fastopen i0 {nm}", f"fastfind i0 h1 {name}", f"ffextract i0 h1 {name} ff", "close i0 h1"]
                 ops += ["close i0 h0", "destroy i0"]
+            elif kind == "oab":
+                ops = S.generic_ops(c2, [("DECOMPBUF", rng.choice([16, 17, 33, 4096, 4097]))])
             else:
                 ops = S.generic_ops(c2)
             out.append((S.file_lines(c2) + ops, dict(family=kind + ".scenario", how=how, kind=kind,
